@@ -140,7 +140,10 @@ def run_case(case, drv):
             out = core.err_kind(e)
         after = state_of(v)
         impl_line = f"{out} {state_str(after[0], after[1])} none none"
-        if idx < len(mparts) and impl_line != mparts[idx]:
+        def _canon(line):      # the property says "raise an error", not which one
+            head, _, rest = line.partition(" ")
+            return core.err_class(head) + " " + rest
+        if idx < len(mparts) and _canon(impl_line) != _canon(mparts[idx]):
             res.disagree(f"call #{idx} {op}", impl_line, mparts[idx])
         # ---------- oracle: the property stated on the real object
         invariant(v, res, where)
